@@ -2,7 +2,7 @@
 # usage: tools/multiseed.sh "1 2 3 4" [PROPS...]   quick tier of every check under several base seeds
 SEEDS=${1:-"1 2 3 4 5 6"}; shift
 PROPS=${@:-"C01 C05 C12 C14 C17"}
-cd /verif
+cd "$(dirname "$0")/.."
 for s in $SEEDS; do for p in $PROPS; do
   out=$(VERIF_SEED=$s ./check $p --tier quick --no-evidence 2>&1); rc=$?
   echo "seed=$s $p exit=$rc $(echo "$out" | grep -E '^runs' | cut -c1-60)"
